@@ -86,7 +86,7 @@ Definition gclass (g : gexpr) : string :=
   | GStr _ => "str" | GName _ _ => "ExprName" | GAttribute _ => "ExprAttribute" | GBinOp _ _ _ => "ExprBinOp"
   | GBoolOp _ _ => "ExprBoolOp" | GCall _ _ => "ExprCall" | GCompare _ _ _ => "ExprCompare"
   | GComprehension _ _ _ _ => "ExprComprehension" | GDict _ => "ExprDict" | GDictComp _ _ _ => "ExprDictComp"
-  | GFormatted _ => "ExprFormatted" | GGeneratorExp _ _ => "ExprGeneratorExp" | GIfExp _ _ _ => "ExprIfExp"
+  | GFormatted _ _ _ => "ExprFormatted" | GGeneratorExp _ _ => "ExprGeneratorExp" | GIfExp _ _ _ => "ExprIfExp"
   | GJoinedStr _ => "ExprJoinedStr" | GKeyword _ _ => "ExprKeyword" | GVarPositional _ => "ExprVarPositional"
   | GVarKeyword _ => "ExprVarKeyword" | GLambda _ _ => "ExprLambda" | GList _ => "ExprList"
   | GListComp _ _ => "ExprListComp" | GNamedExpr _ _ => "ExprNamedExpr" | GSet _ => "ExprSet"
@@ -97,44 +97,104 @@ Definition gclass (g : gexpr) : string :=
 Definition enc_parent (p : gparent) : sexp :=
   SStr (match p with ParScope => "scope" | ParName _ => "name" | ParStr => "str" | ParNone => "none" end).
 
-(* flat pieces: (0 text) | (1 name parent-kind path) ; one-layer pieces: (0 text) | (2 class rendered) *)
+Section Run.
+Variable fx : fixes.
+Variable env : nenv.
+
+(* Expr.canonical_path: names and dotted chains resolve through the module's imports, subscripts and calls answer for their
+   left part, everything else is its own text; an ExprKeyword answers `<function>(<name>)` (kwf: the call's function) *)
+Fixpoint canon_full (g : gexpr) : string :=
+  match g with
+  | GStr s => s
+  | GName _ _ | GAttribute _ => match gcanon env g with Some p => p | None => "" end
+  | GSubscript l _ => canon_full l
+  | GCall f _ => canon_full f
+  | _ => render fx g
+  end.
+Definition item_canon (parent : gexpr) (g : gexpr) : string :=
+  match g, parent with
+  | GKeyword n _, GCall (GStr _) _ => "n/a"      (* AttributeError: 'str' object has no attribute 'canonical_path' (finding F15) *)
+  | GKeyword n _, GCall f _ => canon_full f ++ "(" ++ n ++ ")"
+  | _, _ => canon_full g
+  end.
+
+(* Expr.modernize(): no class of this version overrides the base method *)
+Definition modernize (g : gexpr) : gexpr := g.
+
+(* flat pieces: (0 text) | (1 name parent-kind path) ; one-layer pieces: (0 text) | (2 class rendered canonical-path) *)
 Definition enc_item (i : item) : sexp :=
   match i with
   | IStr s => SList [SInt 0; SStr s]
   | IExpr (GName n p) => SList [SInt 1; SStr n; enc_parent p; SStr (gname_path (GName n p))]
-  | IExpr g => SList [SInt 2; SStr (gclass g); SStr (render g)]
+  | IExpr g => SList [SInt 2; SStr (gclass g); SStr (render fx g)]
   end.
-Definition enc_item1 (i : item) : sexp :=
+Definition enc_item1 (parent : gexpr) (i : item) : sexp :=
   match i with
   | IStr s => SList [SInt 0; SStr s]
-  | IExpr g => SList [SInt 2; SStr (gclass g); SStr (render g)]
+  | IExpr g => SList [SInt 2; SStr (gclass g); SStr (render fx g); SStr (item_canon parent g)]
+  end.
+(* the elements of a dotted chain: each name's canonical path continues the previous one's *)
+Fixpoint chain_canons (prev : string) (vs : list gexpr) : list string :=
+  match vs with
+  | [] => []
+  | v :: r =>
+      let c := match v with GName _ _ => gname_canon env prev v | _ => canon_full v end in
+      (match v with GStr _ => [] | _ => [c] end) ++ chain_canons c r
+  end.
+Fixpoint enc_chain (items : list item) (cs : list string) : list sexp :=
+  match items with
+  | [] => []
+  | IStr s :: r => SList [SInt 0; SStr s] :: enc_chain r cs
+  | IExpr g :: r =>
+      SList [SInt 2; SStr (gclass g); SStr (render fx g); SStr (match cs with c :: _ => c | [] => "" end)]
+      :: enc_chain r (match cs with _ :: cs' => cs' | [] => [] end)
+  end.
+Definition enc_items1 (g : gexpr) : list sexp :=
+  match g with
+  | GAttribute vs => enc_chain (iterate fx false g) (chain_canons "" vs)
+  | _ => map (enc_item1 g) (iterate fx false g)
   end.
 
-(* ("run" top parse e):
+Definition run_one (top parse : Z) (e : pyexpr) : sexp :=
+  let m := if (parse =? 0)%Z then NoParse else Parse false in
+  let topn := Z.to_nat top in
+  let e' := subst fx env m false false e in
+  let b := build fx env (mkCtx m false false false) e in
+  let b' := build fx env ctx0 e' in
+  SList [of_bool (wf e && wf e'); of_bool (no_parsed e);
+         of_opt (fun g => SList [SStr (render fx g); SStr (gclass g);
+                                 SList (map enc_item (iterate fx true g)); SList (enc_items1 g);
+                                 SStr (canon_full g); SStr (render fx (modernize g))]) b;
+         SStr (ref_top topn e');
+         SList (map of_nat (gaps_top fx topn e' ++ (if rule_ok (fx_litroot fx) e || negb (no_parsed e) then [] else [11])));
+         SList (map SStr (src_names e'));
+         of_bool (ref_unsupported e');
+         of_opt (fun g => SStr (render fx g)) b';
+         of_bool (drops fx e');
+         of_bool (lits_agree env e)].
+End Run.
+
+Definition dec_env (s : sexp) : option nenv :=
+  as_list_of (fun x => match x with SList [SStr k; SStr v] => Some (k, v) | _ => None end) s.
+
+Definition enc_fixes (f : fixes) : sexp :=
+  SList (map of_bool [fx_prec f; fx_lambda f; fx_tuple0 f; fx_intattr f; fx_genexp f; fx_fconv f; fx_fesc f; fx_fglue f;
+                      fx_fnest f; fx_litroot f]).
+
+(* ("run" top parse env e):
      top   = minimal precedence of the storing position (3: assignment value, 4: everything else)
      parse = 1 when string annotations are parsed at this position (parse_strings=True)
-   result: (wf no_parsed build rprint gaps names ref_unsupported render-of-substituted drops)
-     build = () when _build raises, else ((str class flat-pieces one-layer-pieces)) *)
+     env   = ((name path) ...) the bindings of the module's import statements
+   result: (wf no_parsed build rprint gaps names ref_unsupported render-of-substituted drops lits_agree)
+     build = () when _build raises, else ((str class flat-pieces one-layer-pieces canonical_path str-of-modernize))
+   ("fixes"): the repairs the translator found in the tree under test *)
 Definition run_C03 (s : sexp) : sexp :=
   match s with
-  | SList [SStr "run"; SInt top; SInt parse; x] =>
-      match dec x with
-      | None => bad_input
-      | Some e =>
-          let m := if (parse =? 0)%Z then NoParse else Parse false in
-          let topn := Z.to_nat top in
-          let e' := subst m false false e in
-          let b := build (mkCtx m false false false) e in
-          let b' := build ctx0 e' in
-          SList [of_bool (wf e && wf e'); of_bool (no_parsed e);
-                 of_opt (fun g => SList [SStr (render g); SStr (gclass g);
-                                         SList (map enc_item (iterate true g)); SList (map enc_item1 (iterate false g))]) b;
-                 SStr (ref_top topn e');
-                 SList (map of_nat (gaps_top topn e'));
-                 SList (map SStr (src_names e'));
-                 of_bool (ref_unsupported e');
-                 of_opt (fun g => SStr (render g)) b';
-                 of_bool (drops e')]
+  | SList [SStr "run"; SInt top; SInt parse; envs; x] =>
+      match dec_env envs, dec x with
+      | Some env, Some e => run_one tree_fixes env top parse e
+      | _, _ => bad_input
       end
+  | SList [SStr "fixes"] => enc_fixes tree_fixes
   | _ => bad_input
   end.
